@@ -36,6 +36,10 @@ Record mnode := { mn_fn : str; mn_pos : N; mn_direct : bool; mn_calls : list N }
 Record mtempl := { mt_key : str; mt_fn : str; mt_direct : bool; mt_calls : list N;
                    mt_ctx_direct : bool; mt_ctx_calls : list N }.
 
+(* how a template pushes (the copy-on-duplicate mechanism): pushes of a bare name, pushes
+   wrapped in deep_copy *)
+Record dtempl := { dt_key : str; dt_bare : N; dt_copied : N }.
+
 Definition flags := list bool.
 Definition flag_at (s : flags) (j : N) : bool := nth (N.to_nat j) s false.
 
@@ -114,7 +118,8 @@ Fixpoint depth (e : exec) : nat :=
 (* the template sets C10 is stated for (hand-maintained; the derived list is printed in
    the evidence and compared with this one by props/C10.py).  Verdicts by the dynamic
    oracle: G = genuine in-place change of a value another reference sees, F = false
-   positive of the static summary (no change observed on any generated argument). *)
+   positive of the static summary (no change observed on any generated argument),
+   - = not exercised by the oracle (modifier operands are created by the modifier's own code). *)
 Open Scope N_scope.
 Definition u (l : list N) : str := l.
 Definition c10_suspect_elements : list str :=
@@ -122,11 +127,11 @@ Definition c10_suspect_elements : list str :=
   ; u [42]           (* *   multiply: stored_arity on a function argument               G *)
   ; u [44]           (* ,   vy_print -> LazyList.output: ctx.stacks push/pop            F *)
   ; u [66]           (* B   vy_int -> multiply                                          F *)
-  ; u [84]           (* T   truthy_indices -> multiply                                  F *)
+  ; u [84]           (* T   truthy_indices -> multiply (given a function)               G *)
   ; u [94]           (* ^   wrapify(stack, n) -> pop                                    F *)
   ; u [98]           (* b   vy_bin -> wrapify -> pop                                    F *)
-  ; u [100]          (* d   ... -> multiply                                             F *)
-  ; u [114]          (* r   orderless_range -> multiply                                 F *)
+  ; u [100]          (* d   multiply(lhs, 2) (given a function)                         G *)
+  ; u [114]          (* r   orderless_range -> multiply (given a function)              G *)
   ; u [289]          (* ġ   vy_gcd -> wrapify -> pop                                    F *)
   ; u [550]          (* Ȧ   assign_iterable: lhs[rhs] = other                           G *)
   ; u [7710]         (* Ḟ   gen_from_fn: made = lhs; made.append                        G *)
@@ -140,7 +145,7 @@ Definition c10_suspect_elements : list str :=
   ; u [8710; 76]     (* ∆L  natural_log -> wrapify                                      F *)
   ; u [222; 68]      (* ÞD  all_diagonals: appends to its own fresh rows                F *)
   ; u [222; 7744]    (* ÞṀ  matrix_multiply -> dot_product -> multiply                  F *)
-  ; u [222; 8226]    (* Þ•  dot_product -> multiply                                     F *)
+  ; u [222; 8226]    (* Þ•  dot_product -> multiply (given a function)                  G *)
   ; u [222; 7690]    (* ÞḊ  matrix_determinant -> pad_to_square (rows are copies)       F *)
   ; u [222; 8453]    (* Þ℅  shuffle: random.shuffle(deep_copy(lhs)), the copy's cache   F *)
   ; u [168; 44]      (* ¨,  vy_print                                                    F *)
@@ -153,10 +158,19 @@ Definition c10_suspect_modifiers : list str :=
   ; u [126]          (* ~   wrapify(stack, n)                                           F *)
   ; u [8332]         (* ₌   wrapify                                                     F *)
   ; u [8333]         (* ₍   wrapify                                                     F *)
-  ; u [402]          (* ƒ   function_A.stored_arity = 2                                 G *)
-  ; u [598]          (* ɖ   function_A.stored_arity = 2                                 G *)
+  ; u [402]          (* ƒ   function_A.stored_arity = 2 on the operand it just defined  - *)
+  ; u [598]          (* ɖ   function_A.stored_arity = 2 on the operand it just defined  - *)
   ; u [223]          (* ß   function_call(stack)                                        F *)
   ].
+
+(* the duplicating templates and the number of deep_copy pushes each must make: `:` one copy
+   next to the original, `D` two, `Ḃ` (bifurcate) one, `¾` pushes a copy of the global array *)
+Definition dup_expected : list (str * N) :=
+  [ (u [58], 1); (u [68], 2); (u [7682], 1); (u [190], 1) ].
+Definition dup_template_ok (ds : list dtempl) (e : str * N) : bool :=
+  existsb (fun d => str_eqb (dt_key d) (fst e) && N.leb (dt_bare d) 1 && N.leb (snd e) (dt_copied d)) ds
+  && forallb (fun d => negb (str_eqb (dt_key d) (fst e)) || (N.leb (dt_bare d) 1 && N.leb (snd e) (dt_copied d))) ds.
+Definition dup_templates_ok (ds : list dtempl) : bool := forallb (dup_template_ok ds) dup_expected.
 
 (* ================= Part 2: heap semantics of the copy templates ================= *)
 Close Scope N_scope.
